@@ -17,6 +17,7 @@ import PV.C30.Model
 import PV.C30.Spec
 import PV.C30.LemmasCsv
 import PV.C30.LemmasRT
+import PV.C30.Gen
 namespace PV.C30
 open List
 
@@ -26,18 +27,31 @@ open List
 single empty field, and contain no CR LF (`recOK`, decidable).  Bare CR, LF, quotes, commas, leading
 spaces, `\.`, Unicode are all covered. -/
 theorem C30_csv (recs : List (List Str)) (h : ∀ r ∈ recs, recOK r = true) :
-    parse (writeAll recs) = ⟨recs, none⟩ :=
-  parse_writeAll recs h
+    parseG codeReader (writeAllW codeWriter recs) = ⟨recs, none⟩ := by
+  rw [parseG_code, writeAllW_code]
+  exact parse_writeAll recs h
+
+/-- The settings found in the source (regenerated `Gen.lean`: every assignment to a field of the
+`csv.Reader` of `ImportCommand.bufferBits` and of the `csv.Writer` of `API.ExportCSV`) are the ones
+`C30_csv` and the round-trip theorem are stated for. -/
+theorem C30_settings : Gen.importReader = codeReader ∧ Gen.exportWriter = codeWriter := by decide
+
+/-- With another setting the statement is false, e.g. a reader with `Comment = '#'` drops every record
+whose first field starts with `#` (written unquoted): -/
+theorem C30_csv_comment_setting_witness :
+    parseG { codeReader with comment := some '#' } (writeAllW codeWriter [[['#', 'a'], ['1']], [['b'], ['2']]])
+      = ⟨[[['b'], ['2']]], none⟩ := by decide
 
 example : recOK [[' ', 'a'], ['"', ',', '\n', '\r'], [], ['\\', '.'], ['é', '\r']] = true := by decide
 
 /-- Excluded point 1 of C30_csv: CR LF inside a field comes back as LF. -/
 theorem C30_csv_crlf_witness :
-    parse (writeAll [[['a', '\r', '\n', 'b']]]) = ⟨[[['a', '\n', 'b']]], none⟩ := by decide
+    parseG codeReader (writeAllW codeWriter [[['a', '\r', '\n', 'b']]]) = ⟨[[['a', '\n', 'b']]], none⟩ := by decide
 
 /-- Excluded point 2 of C30_csv: the record holding one empty field is written as an empty line,
 which the reader skips. -/
-theorem C30_csv_empty_record_witness : parse (writeAll [[[]]]) = ⟨[], none⟩ := by decide
+theorem C30_csv_empty_record_witness :
+    parseG codeReader (writeAllW codeWriter [[[]]]) = ⟨[], none⟩ := by decide
 
 /-! ### export covers every bit -/
 
@@ -82,7 +96,7 @@ theorem C30_roundtrip_partial (src : Field) (cols0 : Store) (bufSize : Nat)
     intro b hb
     exact mem_map.mpr ⟨b, (hmem b).mp hb, rfl⟩
   -- the CSV text parses back to the exported records
-  have hparse : parse src.exportCSV = ⟨L.map (recOf src), none⟩ := by
+  have hparse : parseG codeReader src.exportCSV = ⟨L.map (recOf src), none⟩ := by
     unfold Field.exportCSV
     rw [hL]
     apply C30_csv
